@@ -245,6 +245,80 @@ def scenario_pde_object_reuse(env, cfg):
     env.reach()
 
 
+def _double(x):
+    return 2 * x
+
+
+def scenario_pde_shared_user_funcs(env, cfg):
+    """two equations are handed the *same* `user_funcs` dictionary object; the second one's rate must not depend on the first"""
+    import pde
+
+    B._prepare(env.sym)
+    I._prepare(env)
+    dt = object if env.sym else float
+    grid = pde.CartesianGrid([[0, 1.5]], [3])
+    x = _data(env)
+    t = env.real("t", -2, 2)
+    bc1, bc2 = BCS[cfg["bc1"]], BCS[cfg["bc2"]]
+    rhs_text = "laplace(c) + twice(c)"
+
+    def rate(eq, route):
+        state = pde.ScalarField(grid, np.array(x, copy=True), dtype=dt)
+        if route == "evolution_rate":
+            return np.array(eq.evolution_rate(state, t).data, copy=True)
+        return np.array(eq.make_pde_rhs(state, backend=route)(np.array(x, copy=True), t), copy=True)
+
+    clear_all_caches()
+    fresh = rate(pde.PDE({"c": rhs_text}, bc=bc2, user_funcs={"twice": _double}), cfg["route2"])
+    clear_all_caches()
+    shared = {"twice": _double}
+    eq1 = pde.PDE({"c": rhs_text}, bc=bc1, user_funcs=shared)
+    rate(eq1, cfg["route1"])
+    eq2 = pde.PDE({"c": rhs_text}, bc=bc2, user_funcs=shared)
+    got = rate(eq2, cfg["route2"])
+    env.close("rate-after-history=rate-in-fresh-process", list(got.flat), list(fresh.flat), scale=SC)
+    env.prove("caller's-user_funcs-dictionary-unchanged", sorted(shared) == ["twice"])
+    env.observe("got", got)
+    env.reach()
+
+
+def scenario_pde_object_two_grids(env, cfg):
+    """one equation object (coordinate-dependent right-hand side) used on one grid and then on another one"""
+    import pde
+
+    B._prepare(env.sym)
+    I._prepare(env)
+    dt = object if env.sym else float
+    grids = {
+        "cart1": lambda: pde.CartesianGrid([[0, 1.5]], [3]),
+        "cart2": lambda: pde.CartesianGrid([[0, 1.5], [0, 1]], [3, 2]),
+        "sph": lambda: pde.SphericalSymGrid((1, 2), 3),
+        "cyl": lambda: pde.CylindricalSymGrid((1, 2), (0, 1), (3, 2)),
+    }
+    rhs_text = {"cart1": "laplace(c) + x * c", "cart2": "laplace(c) + x * c", "sph": "laplace(c) + r * c", "cyl": "laplace(c) + r * c"}[cfg["second"]]
+    t = env.real("t", -2, 2)
+
+    def rate(eq, gname, route, tag):
+        grid = grids[gname]()
+        x = env.array(f"u{tag}", grid.shape, -4, 4)
+        state = pde.ScalarField(grid, np.array(x, copy=True), dtype=dt)
+        if route == "evolution_rate":
+            return np.array(eq.evolution_rate(state, t).data, copy=True)
+        return np.array(eq.make_pde_rhs(state, backend=route)(np.array(x, copy=True), t), copy=True)
+
+    clear_all_caches()
+    fresh = rate(pde.PDE({"c": rhs_text}, bc={"derivative": 0}), cfg["second"], cfg["route2"], "B")
+    clear_all_caches()
+    eq = pde.PDE({"c": rhs_text}, bc={"derivative": 0})
+    text_before = dict(eq.expressions)
+    rate(eq, cfg["first"], cfg["route1"], "A")
+    got = rate(eq, cfg["second"], cfg["route2"], "B")
+    env.close("rate-on-second-grid=rate-of-a-fresh-equation", list(got.flat), list(fresh.flat), scale=SC)
+    env.prove("advertised-expressions-unchanged-by-use", dict(eq.expressions) == text_before)
+    env.observe("got", got)
+    env.reach()
+
+
 def cases(tier, seed):
     q = tier == "quick"
     out = []
@@ -286,6 +360,12 @@ def cases(tier, seed):
     for first, last in itertools.permutations(pde_reqs, 2):
         out.append({"name": f"pde-pair:{_pn(first)}->{_pn(last)}", "scenario": "scenario_pde_history", "cfg": {"history": [first, last]}, "validate_paths": 0})
     out.append({"name": "pde-object-reuse:field-constant-modified-in-place", "scenario": "scenario_pde_object_reuse", "cfg": {}})
+    for bc1, bc2 in (("value0", "derivative0"), ("derivative0", "value0"), ("value1", "value0")):
+        for r1, r2 in (("numba", "numba"), ("numba", "evolution_rate"), ("numpy", "numba"), ("evolution_rate", "numpy")) if not q else (("numba", "numba"), ("numba", "evolution_rate"), ("numpy", "numba")):
+            out.append({"name": f"pde-shared-user_funcs:{bc1}/{r1}->{bc2}/{r2}", "scenario": "scenario_pde_shared_user_funcs", "cfg": {"bc1": bc1, "bc2": bc2, "route1": r1, "route2": r2}, "validate_paths": 0})
+    for first, second in (("cart2", "cart1"), ("cart1", "cart2"), ("cyl", "sph"), ("sph", "cyl")):
+        for r1, r2 in (("numba", "numba"), ("evolution_rate", "numba"), ("numpy", "evolution_rate")):
+            out.append({"name": f"pde-object-two-grids:{first}/{r1}->{second}/{r2}", "scenario": "scenario_pde_object_two_grids", "cfg": {"first": first, "second": second, "route1": r1, "route2": r2}, "validate_paths": 0})
     return out
 
 
